@@ -7,6 +7,14 @@ VERIF = os.path.dirname(os.path.dirname(os.path.abspath(__file__)))
 
 # id -> (technique, level text, level note, design ref)
 CHECKS = {
+    "C06": ("TLA+ transcription of the read loop model-checked against a declarative line/offset oracle (TLC, exhaustive "
+            "small scope); every TLC-exported case replayed on the real worker.work and compared",
+            "TLC proves on the whole small-scope case space (all contents over {x,\\n} up to the bound x all splits into appends x "
+            "all buffer sizes x size limits x cut_off x resume offsets) that the transcribed read loop hands over exactly the "
+            "expected (offset, bytes) calls; the real worker.work is then executed on real files for those cases and must produce "
+            "the same calls, so an off-by-one in scanned/lastOffset/accumBuf/tail handling shows as a differing call.",
+            "Trusted: the transcription is bound to the code only through the replayed cases (small scope: length <= 5/7, two symbols); "
+            "OS file semantics; lz4 path not covered.", "DESIGN.md §6 C06"),
 }
 
 NOT_APPLICABLE = {
